@@ -413,6 +413,9 @@ def spec_c06(c):
         return "C06: a Feasible node result cannot be housed (housedb on effective sizes, binary32, evaluated in Coq)"
     if c["stream"] == "solve" and has(c, SOLVE, "found") and not has(c, SOLVE, "housed"):
         return "C06: the assignment returned by caobab::solve with a room list cannot be housed (housedb evaluated in Coq)"
+    if c["stream"] == "gate" and (c["code"] & 2) and not (c["code"] & 32):
+        return "C06: the room gate (check_room_feasibility) reports no conflict for an assignment that cannot be housed in the given rooms " \
+               "(effective sizes in binary32, rank-wise comparison of the descending sorts: housedb evaluated in Coq)"
     return None
 
 
@@ -439,6 +442,14 @@ def spec_c04(c):
     if c["meta"]["outcome"] == 0 and len(st) == 5 and st[0] != st[1] + st[2] + st[3]:
         # directly on the implementation's counters, independent of the model's acceptance of the history
         return "C04: the returned statistics do not add up: %d executed subproblems but %d no-solution + %d infeasible + %d feasible" % tuple(st[:4])
+    gen, sol = c["meta"].get("generated_by_node_fn"), c["meta"].get("executions_of_node_fn")
+    if c["meta"]["outcome"] == 0 and len(st) == 5 and gen is not None and c["meta"].get("failed_nodes", 0) == 0:
+        # the node function of the harness counts what it hands out and how often it runs, independent of history and model
+        if st[0] != sol:
+            return "C04: %d subproblems were solved (executions of the node function) but the statistics report %d" % (sol, st[0])
+        if st[0] + st[4] != gen:
+            return "C04: %d subproblems were generated (the root and the children of the executed nodes) but solved + bounded = %d + %d: a " \
+                   "subproblem is neither solved nor discarded by bounding exactly once" % (gen, st[0], st[4])
     if has(c, TREE, "accepted", "returned") and not has(c, TREE, "stats"):
         return "C04: returned statistics do not add up / differ from the model's counters (solved = nosol + infeasible + feasible, generated = solved + bounded)"
     return None
@@ -840,7 +851,18 @@ def c03_extra(ctx, cases):
                 known.append(known_tc("C03"))
                 continue
             viol.append(cli_violation(ctx, rs[0], "C03: exit status / quality.solution_score differ between --num-threads 1, 2, 16: %s" % sorted(outs, key=str)))
-    ctx.extra_cov = {"schedule_groups_compared": ncomp, "cli_runs": {"runs": len(recs), "instances_compared_across_thread_counts": ncli}}
+    # larger instances (7-10 courses, 18-45 participants, no instructors) with nearly enough large rooms and one or two tiny ones: the room stage
+    # chooses among many equally ranked courses; the real binary with 1, 6 and 16 workers
+    wide = clirun.run_wide_family(ctx, vlib.build_cli(), ctx.seed + 71, 12 if ctx.tier == "quick" else 120)
+    for inst, rooms, outs in wide:
+        if len(set(outs.values())) > 1:
+            rp = ctx.replay({"kind": "failing-input", "stream": "cli-wide", "what": "C03: exit status / score differ between thread counts",
+                             "instance_file_content": inst, "rooms": rooms, "outcomes": {str(k): v for k, v in outs.items()},
+                             "how": "write instance_file_content to a file and run target/cli/debug/cdecao --num-threads N --rooms <rooms> <file> <out> for the thread counts listed"})
+            viol.append(("C03: exit status / quality.solution_score differ between --num-threads 1, 6, 16 on an instance with %d courses and %d participants "
+                         "(no instructors): %s" % (len(inst["courses"]), len(inst["participants"]), sorted(outs.items())), rp, False))
+    ctx.extra_cov = {"schedule_groups_compared": ncomp, "cli_runs": {"runs": len(recs) + 3 * len(wide), "instances_compared_across_thread_counts": ncli,
+                                                                      "wide_instances_compared_across_1_6_16_threads": len(wide)}}
     return viol[:4], known
 
 
